@@ -142,6 +142,7 @@ Proof.
   rewrite read_line_full; [|apply no_ctl_not_in; [assumption|lia]|assumption].
   assert (El : content ++ [10] = S_INDENT ++ (47 :: e) ++ [10]).
   { unfold content. rewrite <- app_assoc. reflexivity. }
+  assert (Ell : last (content ++ [10]) 0 = 10) by apply last_last. rewrite Ell. change (10 =? 10) with true. cbv iota.
   rewrite El. rewrite strip_prefix_app.
   pose proof (str_trim_indent_line e Se) as Ht.
   destruct (str_trim (S_INDENT ++ (47 :: e) ++ [10])) as [|t0 t1] eqn:Et; [contradiction|].
